@@ -1,6 +1,8 @@
 #![allow(dead_code)]
 mod gen;
+mod hash;
 mod leb;
+mod principal;
 mod util;
 
 fn main() {
@@ -10,6 +12,8 @@ fn main() {
     let o = util::opts(&args[1..]);
     match args[0].as_str() {
         "leb" => leb::run(&o),
+        "hash" => hash::run(&o),
+        "principal" => principal::run(&o),
         m => { eprintln!("usage: unknown mode {m}"); std::process::exit(2); }
     }
 }
